@@ -319,8 +319,23 @@ Lemma closed_fn_parts_pure : forall fd, closed_fn fd = true ->
 Proof.
   intros fd H. unfold closed_fn in H. apply andb_prop in H. destruct H as [H H3]. apply andb_prop in H. destruct H as [H1 H2].
   repeat split; auto. rewrite forallb_forall in *. intros x Hx. apply H1 in Hx.
-  apply andb_prop in Hx. destruct Hx as [Hx _]. apply andb_prop in Hx. tauto.
+  apply andb_prop in Hx. destruct Hx as [Hx _]. apply andb_prop in Hx. destruct Hx as [Hx _]. apply andb_prop in Hx. tauto.
 Qed.
+Lemma closed_fn_nodots : forall fd, closed_fn fd = true -> forallb (fun p => negb (bytes_eqb p dots_name)) (fd_params fd) = true.
+Proof.
+  intros fd H. unfold closed_fn in H. apply andb_prop in H. destruct H as [H H3]. apply andb_prop in H. destruct H as [H1 H2].
+  rewrite forallb_forall in *. intros x Hx. apply H1 in Hx. apply andb_prop in Hx. tauto.
+Qed.
+Lemma not_variadic : forall ps, forallb (fun p => negb (bytes_eqb p dots_name)) ps = true -> is_variadic ps = false.
+Proof.
+  intros ps H. unfold is_variadic, ident in *.
+  assert (A : forall q, In q (rev ps) -> bytes_eqb q dots_name = false).
+  { intros q HI. apply in_rev in HI. rewrite forallb_forall in H. apply H in HI. apply negb_true_iff in HI. exact HI. }
+  destruct (rev ps) as [|q r]; [reflexivity|]. apply A. left. reflexivity.
+Qed.
+Lemma call_shape_closed : forall fd vals, closed_fn fd = true ->
+  call_shape (fd_params fd) vals = if Nat.eqb (length vals) (length (fd_params fd)) then Some (fd_params fd, vals, None) else None.
+Proof. intros. unfold call_shape. rewrite not_variadic; auto using closed_fn_nodots. Qed.
 
 (* ================================================================ closed bodies: the coincidence lemma *)
 Section Closed.
@@ -441,7 +456,8 @@ Section Closed.
     intros fd x HC HM. unfold closed_fn in HC. apply andb_prop in HC. destruct HC as [HC _].
     apply andb_prop in HC. destruct HC as [HC _]. rewrite forallb_forall in HC.
     apply mem_ident_in in HM. destruct HM as [y [Hy E]]. apply bytes_eqb_eq in E. subst y.
-    apply HC in Hy. apply andb_prop in Hy. destruct Hy as [Hy H3]. apply andb_prop in Hy. destruct Hy as [H1 H2].
+    apply HC in Hy. apply andb_prop in Hy. destruct Hy as [Hy _]. apply andb_prop in Hy. destruct Hy as [Hy H3].
+    apply andb_prop in Hy. destruct Hy as [H1 H2].
     apply negb_true_iff in H2, H3. unfold is_self in H2. apply orb_false_elim in H2. destruct H2 as [H2 H4].
     repeat split; auto. destruct (fd_name fd); auto.
   Qed.
@@ -546,11 +562,7 @@ Section Closed.
   Lemma closed_fn_parts : forall fd, closed_fn fd = true ->
     forallb (fun p => negb (constant_name p)) (fd_params fd) = true /\ nodup_idents (fd_params fd) = true /\
     closed_expr (is_self (fd_name fd)) (fd_params fd) (fd_body fd) = true.
-  Proof.
-    intros fd H. unfold closed_fn in H. apply andb_prop in H. destruct H as [H H3]. apply andb_prop in H. destruct H as [H1 H2].
-    repeat split; auto. rewrite forallb_forall in *. intros x Hx. apply H1 in Hx.
-    apply andb_prop in Hx. destruct Hx as [Hx _]. apply andb_prop in Hx. tauto.
-  Qed.
+  Proof. exact closed_fn_parts_pure. Qed.
 
   Lemma apply_closed : forall f, closed_spec f ->
     forall on d fd st fr cur envd args r st',
@@ -571,11 +583,12 @@ Section Closed.
       - exists k. unfold call_pure. rewrite L, Nat.eqb_refl. simpl. auto.
       - exists []. rewrite app_nil_r. auto. }
     rewrite Hcur, Hpf in H.
-    destruct (negb (length args =? length (fd_params fd))) eqn:AR.
-    { inversion H; subst. right. repeat split; simpl; auto.
-      - exists 0. unfold call_pure. rewrite map_length, AR. auto.
+    rewrite (call_shape_closed fd _ (all_closed _ _ Hd)) in H.
+    destruct (length (map fst args) =? length (fd_params fd)) eqn:AR.
+    2:{ inversion H; subst. right. repeat split; simpl; auto.
+      - exists 0. unfold call_pure. rewrite AR. auto.
       - exists []. rewrite app_nil_r. auto. }
-    apply negb_false_iff in AR. apply Nat.eqb_eq in AR.
+    apply Nat.eqb_eq in AR. rewrite map_length in AR.
     unfold set_heap in H. cbn [st_heap st_cache] in H.
     rewrite bind_closed in H; auto; [|rewrite map_length; auto].
     match type of H with context [eval f on defs ?s2 ?n ?b] => destruct (eval f on defs s2 n b) as [rb st3] eqn:EB end.
@@ -1282,6 +1295,16 @@ Section Root.
       + rewrite IO in H1, H0. inversion H1; inversion H0; subst. split.
         * unfold same_res. simpl. repeat split; auto. intros w W; inversion W; auto.
         * exists root. simpl. repeat split; auto; constructor.
+    - (* ECatchErr *)
+      destruct (eval f true defs s1 0 e) as [a1 t1] eqn:E1. destruct (eval f false defs s0 0 e) as [a0 t0] eqn:E0.
+      assert (NA1 : r_oc a1 <> OFuel) by (intro Q; rewrite Q in H1; inversion H1; subst; apply N1; auto).
+      assert (NA0 : r_oc a0 <> OFuel) by (intro Q; rewrite Q in H0; inversion H0; subst; apply N0; auto).
+      destruct (IH _ _ _ _ _ _ _ R HL E1 E0 NA1 NA0) as [SA RA].
+      pose proof SA as [O [OUT [LG [RF1 [RF0 EV]]]]]. rewrite <- O in H0.
+      destruct (r_oc a1) as [v| |] eqn:OA.
+      + inversion H1; inversion H0; subst. split; auto. apply same_res_oc; auto; intros w W; inversion W; subst; auto.
+      + inversion H1; inversion H0; subst. split; auto.
+      + congruence.
   Qed.
 End Root.
 
